@@ -60,6 +60,8 @@ class Gen:
 
     def bytes_value(self, path):
         L = self.prof
+        if isinstance(L, str) and L.startswith('utf:'):
+            L = 4 + sum(utf_classes(L))
         if L == 'nested':
             c = self.S.cons[NESTED]
             return self.obj(c, path, boxed_type=True)
@@ -70,6 +72,11 @@ class Gen:
         return b, b, lambda got: got == b
 
     def string_value(self, path):
+        if isinstance(self.prof, str) and self.prof.startswith('utf:'):
+            # text with multi-byte characters: the framing counts encoded bytes, not characters
+            s = self.ctx.unitext(self.name(path), utf_classes(self.prof), prefix=SPREFIX)
+            sb = s.encode()
+            return s, s, lambda got: (got.encode() if len(got) else b'') == sb if not isinstance(got, (bytes, C.SymBytes)) else False
         L = self.prof if self.prof != 'nested' else 7
         if L < 4:
             s = 'x9~'[:L]
@@ -171,6 +178,22 @@ class Gen:
         for b in bits:
             v |= 1 << b
         return v
+
+
+def utf_classes(prof):
+    """'utf:1,2,3' or 'utf:2*127' -> per-character UTF-8 byte lengths"""
+    out = []
+    for part in prof[4:].split(','):
+        if '*' in part:
+            c, n = part.split('*')
+            out += [int(c)] * int(n)
+        else:
+            out.append(int(part))
+    return out
+
+
+# (after the four concrete leading characters) total encoded lengths 6, 10, 9, 253, 254, 255, 253, 254
+UTF_PROFILES = ['utf:2', 'utf:1,2,3', 'utf:3,1,1', 'utf:2*124,1', 'utf:2*125', 'utf:3*83,1,1', 'utf:1*246,2,1', 'utf:1*248,2']
 
 
 def h_cons(ctx, name, flags=None, prof=5, vlen=1, alt=0, twin=None):
@@ -330,6 +353,9 @@ def instances(tier, seed):
             profs = [p for p in profs if p != 'nested']     # documented: their data field is never auto-parsed
         for p in profs:
             todo.append(dict(name=name, flags=combos[-2] if len(combos) > 1 else None, prof=p, vlen=1, alt=0))
+        if has_type(c, S, lambda t: t == 'string'):
+            for p in (UTF_PROFILES if tier == 'thorough' or zlib.crc32(name.encode()) % 4 == seed % 4 else [UTF_PROFILES[zlib.crc32(name.encode()) % len(UTF_PROFILES)], 'utf:2*125']):
+                todo.append(dict(name=name, flags=combos[-1] if len(combos) > 1 else None, prof=p, vlen=1, alt=0))
         for v in vlens:
             for a in alts:
                 todo.append(dict(name=name, flags=combos[-2] if len(combos) > 1 else None, prof=5, vlen=v, alt=a))
@@ -358,6 +384,6 @@ BOUNDS = {
 OUTSIDE = ['constructors with unsupported field types (int32/int53/int64/double/secureBytes/vector<...> of tonlib_api)',
            'parsing of vectors whose elements are not bare constructors (the parser reads elements as bare constructors only): encoding checked, parsing not demanded',
            'int128/int256 given as bytes objects (the parser returns hex text; hex text is the well-typed value here)',
-           'byte strings whose first four bytes are a registered constructor id without being an encoded object', 'non-ASCII text']
+           'byte strings whose first four bytes are a registered constructor id without being an encoded object', 'characters outside the Basic Multilingual Plane (4-byte UTF-8) and invalid UTF-8 in string fields']
 STUBS = []
 ASSUMPTIONS = ['specs/tlspec.py: TL framing rules and constructor-id computation (crc32 of the declaration without ; ( ))']
